@@ -334,3 +334,4 @@ M("c20.toml-tags-not-renamed", "C20", CFG, "            this_config[param_name] 
 M("c19.version-object-string-not-converted", "C19", "behave/active_tag/python.py", "    def __init__(self, value, compare_func=None):\n        if isinstance(value, six.string_types):\n            value = self.to_version_tuple(value)",
   "    def __int__(self, value, compare_func=None):\n        if isinstance(value, six.string_types):\n            value = self.to_version_tuple(value)")
 M("c19.version-tuple-two-parts-only", "C19", "behave/active_tag/python.py", 'return tuple([int(x) for x in version.split(".")])', 'return tuple([int(x) for x in version.split(".")[:2]])')
+M("c04.bom-not-skipped", "C04", "behave/parser.py", 'data = f.read().decode("utf-8-sig")', 'data = f.read().decode("utf8")')
